@@ -45,7 +45,7 @@ func cfgFor(prop string, r *Rng) GenCfg {
 		c.FaultRate, c.FaultKinds, c.NoiseRate = 0.6, []string{"F1", "F2"}, 0.05
 	case "C02":
 		f["resource"], f["attachment"], f["storage"] = 10, 2, 1
-		c.ScnRate = 0.12
+		c.ScnRate = 0.2
 	case "C05":
 		f["copy"], f["storage"] = 10, 1
 		c.ScnRate = 0.15
